@@ -454,9 +454,13 @@ func (e *Explorer) finish(scs []*Scenario) *SStats {
 				first = r.Outcome
 			}
 		}
-		if ok != 5 {
-			st.Infra = append(st.Infra, fmt.Sprintf("violation %s in %s devs=%v reproduced only %d/5 times", f.Signature, f.Scenario, f.Devs, ok))
+		if ok == 0 {
+			st.Infra = append(st.Infra, fmt.Sprintf("violation %s in %s devs=%v did not reproduce in 5 replays", f.Signature, f.Scenario, f.Devs))
 			continue
+		}
+		if ok != 5 {
+			// the code under test itself behaves nondeterministically under one schedule
+			f.Detail += fmt.Sprintf(" [reproduced in %d of 5 replays of the same schedule]", ok)
 		}
 		st.Found = append(st.Found, f)
 	}
